@@ -64,8 +64,9 @@ GHOST_CHOICES = {'choice', 'source_fails', 'db_fails', 'io_fails', 'asindices_fa
 
 
 class Obligation(object):
-    def __init__(self, name, hyps, goal, where='', kind='post'):
+    def __init__(self, name, hyps, goal, where='', kind='post', solver=None):
         self.name, self.hyps, self.goal, self.where, self.kind = name, list(hyps), goal, where, kind
+        self.solver = solver         # 'cvc5': ask cvc5 first (quantifier alternations it decides at once and z3 does not)
 
 
 BRANCH_IDS = set()       # AST ids of facts that are branch conditions (as opposed to assumptions / emitted axioms)
@@ -92,8 +93,8 @@ class Ctx(object):
             raise PathEnd()
         self.facts.append(f)
 
-    def oblige(self, name, goal, where='', kind='post'):
-        self.obligations.append(Obligation(name, self.facts, _t(goal), where, kind))
+    def oblige(self, name, goal, where='', kind='post', solver=None):
+        self.obligations.append(Obligation(name, self.facts, _t(goal), where, kind, solver))
 
     def cut(self, name, lemma, where=''):
         """intermediate lemma: proved here as an obligation of its own (from the facts so far), then available to what follows"""
